@@ -30,8 +30,13 @@ type outcome struct {
 	Via string
 
 	// Keep holds the FileInfo / []DirEntry values the call returned: objects
-	// handed out, which can be asked again later (see reRender).
+	// handed out, which can be asked again later (see reRender). A slice is kept
+	// as a copy: the one the call returned is the caller's and is written over.
 	Keep []any
+
+	// Lent counts the slices the call returned (not the buffers the caller
+	// passed) and the harness wrote over, see scribbleSlice.
+	Lent int
 }
 
 func (o outcome) String() string {
@@ -242,7 +247,7 @@ func invoke(recv any, helper avfs.VFS, idm avfs.IdentityMgr, o opDesc) (out outc
 
 				es := r.Interface().([]fs.DirEntry)
 				parts := make([]string, 0, len(es))
-				out.Keep = append(out.Keep, es)
+				out.Keep = append(out.Keep, append([]fs.DirEntry(nil), es...))
 
 				for _, e := range es {
 					parts = append(parts, renderEntry(helper, e))
@@ -263,6 +268,8 @@ func invoke(recv any, helper avfs.VFS, idm avfs.IdentityMgr, o opDesc) (out outc
 					// a returned slice must not be storage of the base file system:
 					// what the caller does with it later cannot change the base
 					fsx.Scribble(r.Bytes())
+
+					out.Lent++
 				}
 			case rt == tStrings:
 				if r.IsNil() {
@@ -299,6 +306,14 @@ func invoke(recv any, helper avfs.VFS, idm avfs.IdentityMgr, o opDesc) (out outc
 			}
 		}
 
+		// every slice the call handed out is the caller's: once it has been
+		// read it is written over, up to its capacity
+		for i, r := range rets {
+			if mt.Out(i) != tBytes && scribbleSlice(r) {
+				out.Lent++
+			}
+		}
+
 		// bytes read into the buffer (Read / ReadAt: first result is the count)
 		if len(bufs) > 0 && len(rets) > 0 && rets[0].Kind() == reflect.Int {
 			n := int(rets[0].Int())
@@ -323,6 +338,70 @@ func invoke(recv any, helper avfs.VFS, idm avfs.IdentityMgr, o opDesc) (out outc
 	out.Kind = fsx.ErrKind(out.Err)
 
 	return out
+}
+
+// Values with reference semantics.
+//
+// Lesson: a read-only call cannot change the base, but what it RETURNS can be
+// a way in. Every value with reference semantics that a call hands out - a
+// []byte, but just as well the []string of Readdirnames and Glob, the
+// []fs.DirEntry of ReadDir, any slice a future method returns - belongs to the
+// caller (package os allocates each of them for the call), and callers do use
+// them as their own: they sort a listing in another order, rename an element
+// for display, append the next piece to the first one. If the slice is storage
+// of the underlying file system (a listing it keeps, or a piece of one, whose
+// spare capacity is the rest of that listing) the caller has rewritten the
+// file system without a single mutating call. So the harness plays the
+// caller: once the value has been read, every element of every returned slice
+// is overwritten (which is also what sorting it differently amounts to) and so
+// is everything between its length and its capacity (where append would
+// write); this holds for whole listings and for the pieces of a listing read
+// with n > 0 alike. The damage, if any, is not in the tree: it shows in what
+// the base ANSWERS afterwards, which is part of the snapshot (answers,
+// system.go). Both sides, wrapper and twin, are treated alike, so what a handle
+// shares with its own caller only (the pending part of a listing read in
+// pieces) stays equal on both sides and is not mistaken for a change of the
+// file system.
+
+// scribbled stands where a caller put something of its own into a listing.
+type scribbled struct{}
+
+const scribbledName = "\x00scribbled"
+
+func (scribbled) Name() string               { return scribbledName }
+func (scribbled) IsDir() bool                { return true }
+func (scribbled) Type() fs.FileMode          { return fs.ModeIrregular }
+func (scribbled) Info() (fs.FileInfo, error) { return scribbled{}, nil }
+func (scribbled) Size() int64                { return -1 }
+func (scribbled) Mode() fs.FileMode          { return fs.ModeIrregular }
+func (scribbled) ModTime() time.Time         { return time.Time{} }
+func (scribbled) Sys() any                   { return nil }
+
+// scribbleSlice overwrites every element of a returned slice, and everything
+// up to its capacity: names get a name no entry has, DirEntry / FileInfo
+// elements a value of the harness, anything else its zero value. false: not a
+// slice, or nothing to write to.
+func scribbleSlice(v reflect.Value) bool {
+	if v.Kind() != reflect.Slice || v.IsNil() || v.Cap() == 0 {
+		return false
+	}
+
+	et := v.Type().Elem()
+	junk := reflect.Zero(et)
+
+	switch {
+	case et.Kind() == reflect.String:
+		junk = reflect.ValueOf(scribbledName).Convert(et)
+	case et.Kind() == reflect.Interface && reflect.TypeOf(scribbled{}).Implements(et):
+		junk = reflect.ValueOf(scribbled{})
+	}
+
+	full := v.Slice(0, v.Cap())
+	for i := 0; i < full.Len(); i++ {
+		full.Index(i).Set(junk)
+	}
+
+	return true
 }
 
 // reRender asks the FileInfo / DirEntry values kept from an earlier call
